@@ -29,8 +29,9 @@ def sym(name: str, exps=None, dec=0, atoms=None) -> AV:
 
 
 def analyse(repo: Repo, fq: str, args: Optional[Dict[str, AV]] = None, options: Optional[Dict[str, object]] = None,
-            max_depth: int = 7, local_stores: bool = False, defaults: bool = True, schema_cols: bool = False, **kw):
+            max_depth: int = 7, local_stores: bool = False, defaults: bool = True, schema_cols: bool = False, memo: bool = False, **kw):
     it = Interp(repo, schema_of(repo), max_depth=max_depth, **kw)
+    it.memo_calls = memo
     it.assume_schema_columns = schema_cols
     it.record_local_stores = local_stores
     it.bind_defaults_at_entry = defaults
